@@ -83,8 +83,11 @@ NeverCollectsInExpr == ~(act.op = "let" /\ res.gc > 0 /\ res.err = 0)
 NeverFailsPartWay  == ~(res.err = 14 /\ res.gc > 0)
 
 \* spec -> code: every transition of the bounded model once (each view-state is expanded exactly once) ...
-Emit == PrintT(<<"TRANSITION", ToJson([from |-> ToString(st.m), d |-> nops, a |-> act', err |-> res'.err, gc |-> res'.gc,
-                                       to |-> ToString(st'.m)])>>)
+\* canonical state key (ToString of a record is not canonical: the field order depends on how the record was built)
+Key(m) == ToString(<<m.cur, m.tmp, [i \in 1..NC |-> m.ptr[CellOrder[i]]],
+                     [x \in 1..Top |-> IF x \in DOMAIN m.strs THEN m.strs[x] ELSE <<>>], Len(m.leaks), m.bad>>)
+Emit == PrintT(<<"TRANSITION", ToJson([from |-> Key(st.m), d |-> nops, a |-> act', err |-> res'.err, gc |-> res'.gc,
+                                       to |-> Key(st'.m)])>>)
 \* ... and whole behaviours of the wide model in simulation mode (printed when the history bound is reached)
 PrintBehaviour == (nops = MaxOps) => PrintT(<<"BEHAVIOUR", ToJson(hist)>>)
 =============================================================================
